@@ -328,7 +328,8 @@ func (e *Enc) typeFactsRec(t types.Type, L []string, st *State, fs *[]string) in
 		}
 		return 4
 	case *types.Interface:
-		*fs = append(*fs, m.ile(z, L[0]), m.ile(z, L[1]), m.ile(z, L[2]), implies(eq(L[0], z), and(eq(L[1], z), eq(L[2], z))))
+		// payload: a pointer (existing object) or a boxed value (negative ids, see makeInterface)
+		*fs = append(*fs, m.ile(z, L[0]), m.ilt(L[1], st.Alloc), m.ile(z, L[2]), implies(eq(L[0], z), and(eq(L[1], z), eq(L[2], z))), e.notGhost(L[1]))
 		return 3
 	case *types.Map, *types.Chan, *types.Signature:
 		*fs = append(*fs, m.ile(z, L[0]), m.ilt(L[0], st.Alloc), e.notGhost(L[0]))
